@@ -23,6 +23,7 @@ LOCF = ["line", "col", "byte_idx"]          # order of Base.mkLoc
 
 
 def strip_comments(src):
+    src = re.sub(r"/\*.*?\*/", " ", src, flags=re.S)
     return re.sub(r"//[^\n]*", "", src)
 
 
